@@ -11,8 +11,9 @@ C03 / C01 with the external functions instantiated by the codec models (what the
   C03_wf_codec             `Props.C01.C03_wf'` (the headline: `Spec.WF`, structure AND type equality) without the `ExtOK`
                            hypothesis; remaining: `SchemaOKF`, `PlainF`, `Safe ∨ coveredF`, `SValOK`
   C03_wf_codec_typed       … and with `SValOK` replaced by the typing invariant `SVal.typed` the wire decoder checks
-  C01_build_decode_codec   `Props.C01.C01_build_decode'` at the codec models, for rows without raw key / value streams
-                           (`noRaw`); no `Safe`, no `ExtOK` (the theorem holds for every `Ext`; stated for symmetry)
+  C01_build_decode_codec   `Props.C01.C01_build_decode'` at the codec models with ITS row hypotheses (`structStreamsAlternate`
+                           of every row, all rows `noRaw` OR `narrowRoot`); no `Safe`, no `ExtOK` (the theorem holds for
+                           every `Ext`; stated for symmetry).  `C01_build_decode_codec_noRaw`: the former `noRaw` form
 -/
 namespace SaModel.Props.C03
 open SaModel SaModel.Build SaModel.Spec
@@ -140,8 +141,27 @@ example : SVal.typed (.record "R" (.cons "a" 0 (.int .u8 255) (.cons "c" 1 (.cha
   decide
 
 /-- **C01 with the codec models plugged in**, no `Safe` (`C01_build_decode'` holds for every `Ext`; this is its instance at the
-record the driver uses) -/
+record the driver uses).  Row hypotheses exactly those of `C01_build_decode'`: every row's raw key / value call streams
+alternate, and either no row has a raw stream or the schema is within the sentinel bound `narrowRoot`. -/
 theorem C01_build_decode_codec (f32Str f64Str : Nat → String) (cast : Nat → Int → Bool → Nat → Option (Bool × Int))
+    (fields : List Field) (rows : List SVal) (arrs : List Arr)
+    (hschema : ∀ f ∈ fields, Lemmas.C03.SchemaOKF f)
+    (hcov : fields.all Build.coveredF = true)
+    (hraw : ∀ x ∈ rows, Build.structStreamsAlternate x = true)
+    (hnar : (∀ x ∈ rows, Build.noRaw x = true) ∨ Build.narrowRoot fields = true)
+    (h : toMarrow (codecExt f32Str f64Str cast) fields rows = .ok arrs) :
+    arrs.length = fields.length ∧
+    ∃ cols : List (String × List LVal),
+      arrs.map decodeAll = cols.map (fun c => c.2.map .ok) ∧
+      cols.map (·.1) = fields.map (·.name) ∧
+      (∀ c ∈ cols, c.2.length = rows.length) ∧
+      ∀ (i : Nat) (hi : i < rows.length),
+        interpRow (codecExt f32Str f64Str cast) fields rows[i] =
+          .ok (.struct (LFields.ofList (cols.map fun c => (c.1, c.2.getD i .null)))) :=
+  Props.C01.C01_build_decode' _ fields rows arrs hschema hcov hraw hnar h
+
+/-- the statement as it stood before: rows without raw key / value streams -/
+theorem C01_build_decode_codec_noRaw (f32Str f64Str : Nat → String) (cast : Nat → Int → Bool → Nat → Option (Bool × Int))
     (fields : List Field) (rows : List SVal) (arrs : List Arr)
     (hschema : ∀ f ∈ fields, Lemmas.C03.SchemaOKF f)
     (hcov : fields.all Build.coveredF = true)
@@ -155,7 +175,8 @@ theorem C01_build_decode_codec (f32Str f64Str : Nat → String) (cast : Nat → 
       ∀ (i : Nat) (hi : i < rows.length),
         interpRow (codecExt f32Str f64Str cast) fields rows[i] =
           .ok (.struct (LFields.ofList (cols.map fun c => (c.1, c.2.getD i .null)))) :=
-  Props.C01.C01_build_decode' _ fields rows arrs hschema hcov (fun x hx => Build.noRaw_ssa x (hraw x hx)) (Or.inl hraw) h
+  C01_build_decode_codec f32Str f64Str cast fields rows arrs hschema hcov (fun x hx => Build.noRaw_ssa x (hraw x hx))
+    (Or.inl hraw) h
 
 /-! ### non-vacuity: temporal strings through the codec models -/
 
@@ -190,5 +211,20 @@ example : ∀ arrs, toMarrow exExt exTFields exTRows = .ok arrs →
     cases h0
     simp [Safe, SafeL]
   · simp [exTRows, Lemmas.C03.SValOK, Lemmas.C03.SFieldsOK]
+
+/-- `C01_build_decode_codec` on a row the former `noRaw` form excluded: the record of `exTFields` presented as an
+ALTERNATING raw `SerializeMap` call stream (key, value, key, value) — accepted, every hypothesis discharged -/
+def exTRawRows : List SVal :=
+  [.mapRaw (.key (.str "d") (.value (.str "1970-01-11") (.key (.str "t") (.value .none .nil))))]
+
+example : (∀ x ∈ exTRawRows, Build.noRaw x = false) ∧ (toMarrow exExt exTFields exTRawRows).isOk = true ∧
+    ∀ arrs, toMarrow exExt exTFields exTRawRows = .ok arrs → arrs.length = exTFields.length ∧
+      ∃ cols : List (String × List LVal), arrs.map decodeAll = cols.map (fun c => c.2.map .ok) ∧
+        cols.map (·.1) = exTFields.map (·.name) := by
+  refine ⟨by decide, by decide +kernel, ?_⟩
+  intro arrs h
+  obtain ⟨hl, cols, h1, h2, _⟩ := C01_build_decode_codec _ _ _ exTFields exTRawRows arrs
+    (by simp [exTFields, Lemmas.C03.SchemaOKF, Lemmas.C03.SchemaOK]) (by decide) (by decide) (Or.inr (by decide)) h
+  exact ⟨hl, cols, h1, h2⟩
 
 end SaModel.Props.C03
